@@ -1412,10 +1412,9 @@ class RTCPeerConnection(AsyncIOEventEmitter):
                 raise ValueError("ICE username fragment or password is missing")
 
             # check DTLS role is allowed
-            if description.type in ["answer", "pranswer"] and media.dtls.role not in [
-                "client",
-                "server",
-            ]:
+            if description.type in ["answer", "pranswer"] and (
+                media.dtls is None or media.dtls.role not in ["client", "server"]
+            ):
                 raise ValueError(
                     "DTLS setup attribute must be 'active' or 'passive' for an answer"
                 )
